@@ -44,6 +44,8 @@ PROP = {  # commit subject fragment -> (property, key)
  "name mangling of private methods": ("C27", "name-mangling-guessed"),
  "incompatible generators for primitive": ("C26", "random-provider-primitive-requests"),
  "only the owning thread stops the tracer on exit": ("C32", "abandoned-thread-stops-tracer-2"),
+ "compared cached values with themselves": ("C22", "coverage-guard-reads-cached-values"),
+ "restoring the unminimized suite raised TypeError": ("C22", "restore-path-typeerror"),
  "KeyError for a loop in dead code": ("C06", "dead-code-cycle"),
  "beyond chromosome_length": ("C15", "insertion-exceeds-chromosome-length"),
  "statements binding a lambda": ("C24", "seed-parser-drops-lambda-statements"),
